@@ -423,7 +423,7 @@ def shrink(case):
                 yield dict(case, classes=_classes(ms[:j] + [m2] + ms[j + 1:]))
 
 
-_WHY = re.compile(r'(fires|detached|leftover) step=(\d+) owner=(\d+) method=(\S+)')
+_WHY = re.compile(r'(fires|detached|leftover|missing) step=(\d+) owner=(\d+) method=(\S+)')
 
 
 def _chain(sh, t, spec):
@@ -451,10 +451,17 @@ def classify(case, impl, fail):
     m = _WHY.search(why)
     if not m:
         return None
-    step, owner, name = int(m.group(2)), int(m.group(3)), m.group(4)
+    kind, step, owner, name = m.group(1), int(m.group(2)), int(m.group(3)), m.group(4)
     meth = next((x for c in case['classes'] for x in c['methods'] if x['name'] == name), None)
     if meth is None or step >= len(case['steps']):
         return None
+    # an exception raised by ANOTHER dependent method left the setter's dispatch loop before the watcher
+    # carrying this method's rebinding callback was reached: this method keeps its watchers on the old path
+    st_obs = impl.get('steps', [])[step] if isinstance(impl, dict) and step < len(impl.get('steps', [])) else {}
+    if kind in ('leftover', 'missing') and st_obs.get('raised') and st_obs.get('calls'):
+        raiser = st_obs['calls'][-1][1]
+        if raiser != name and len([x for c in case['classes'] for x in c['methods']]) >= 2:
+            return 'raise-in-one-method-skips-rebinding-of-another'
     # the graph before and after the failing step
     for upto in (step, step + 1):
         sh = _replay_shadow(case, upto)
